@@ -2,6 +2,7 @@ import RR.Gen.E2e
 import RR.Proof.SyncSpecs
 import RR.Proof.HdlcTable
 import RR.Spec.Hdlc
+import RR.Proof.Chain
 
 /-!
 # C20 — end to end: the documented receive chains decode every clean AX.25 frame
@@ -22,7 +23,7 @@ The chain definitions used by the harness are compared with the example sources
 on every run (`RR.Gen.rx1200Chain`, …).
 -/
 namespace RR.Props.C20
-open RR RR.Blk
+open RR RR.Blk RR.Chain
 
 /-- The documented 1200-baud chain, as the example source has it now. -/
 theorem c20_chain_1200_as_documented :
@@ -37,13 +38,6 @@ theorem c20_chain_9600_as_documented :
       "NrziDecode", "Descrambler", "HdlcDeframer"] ∧
     Gen.rx9600HdlcMin = 10 ∧ Gen.rx9600HdlcMax = 1500 ∧
     Gen.rx9600DescramblerMask = 0x21 ∧ Gen.rx9600DescramblerSeed = 0 ∧ Gen.rx9600DescramblerLen = 16 := by decide
-
-/-- NRZI as AX.25 transmits it: a `0` toggles the line level, a `1` keeps it. -/
-def nrziEnc : Nat → List Nat → List Nat
-  | _, [] => []
-  | level, b :: rest =>
-    let l := if b = 0 then 1 - level else level
-    l :: nrziEnc l rest
 
 /-- The NRZI decoder inverts the encoder for every bit string, when it starts
 from the transmitter's initial level … -/
@@ -101,6 +95,60 @@ theorem c20_polarity_irrelevant (prev : Nat) (ls : List Nat) (hl : ∀ l ∈ ls,
         have : x = 0 ∨ x = 1 := by omega
         rcases ‹p = 0 ∨ p = 1› with rfl | rfl <;> rcases ‹x = 0 ∨ x = 1› with rfl | rfl <;> decide
     exact gen a rest ha (fun x hx => hl x (by simp [hx]))
+
+/-- **Digital back end of the 1200-baud chain, every transmission.** Any
+preamble of at least one bit, then a flag and any number of frames (payloads
+within the example's size limits, any idle flags between them), NRZI-encoded
+from any line level; NRZI decoder in any state, deframer as configured in the
+example: the packets delivered are the payloads, in order, each once — preceded
+only by what the preamble itself made the deframer deliver. -/
+theorem c20_digital_1200 (P : List Nat) (hP : ∀ x ∈ P, x < 2) (hPne : P ≠ []) (level prev : Nat)
+    (hl : level < 2) (hp : prev < 2) (ps : List (List Nat × Nat))
+    (hps : ∀ q ∈ ps, (∀ b ∈ q.1, b < 256) ∧ Gen.rx1200HdlcMin ≤ q.1.length + 2 ∧ q.1.length + 2 ≤ Gen.rx1200HdlcMax) :
+    ∃ garbage, (Hdlc.run ⟨Gen.rx1200HdlcMin, Gen.rx1200HdlcMax, true, false⟩ Hdlc.init
+      (nrziSpec prev (nrziEnc level (P ++ txFrames ps)))).2 = garbage ++ ps.map (·.1) := by
+  have hbits : ∀ x ∈ P ++ txFrames ps, x < 2 := by
+    intro x hx
+    rcases List.mem_append.mp hx with h | h
+    · exact hP x h
+    · exact txFrames_bits ps x h
+  obtain ⟨r0, hr0, hR⟩ := nrzi_any_start level prev hl hp (P ++ txFrames ps) hbits (by simp [hPne])
+  rw [hR]
+  cases P with
+  | nil => exact absurd rfl hPne
+  | cons p0 P' =>
+    simp only [List.cons_append, List.drop_succ_cons, List.drop_zero]
+    have := deframe_after_noise ⟨Gen.rx1200HdlcMin, Gen.rx1200HdlcMax, true, false⟩ rfl (r0 :: P')
+      (by intro b hb; rcases List.mem_cons.mp hb with rfl | h; omega; have := hP b (by simp [h]); omega) ps hps
+    exact ⟨_, by simpa using this⟩
+
+/-- **Digital back end of the 9600-baud chain, every transmission.** As above
+with the G3RUH scrambler (any seed) at the transmitter and the descrambler as
+configured in the example (mask 0x21, length 16, seed 0 — the real `Lfsr::next`
+register model) at the receiver, after a preamble of at least 18 bits. -/
+theorem c20_digital_9600 (P hs : List Nat) (hP : ∀ x ∈ P, x < 2) (hhs : ∀ x ∈ hs, x < 2) (hlen : 18 ≤ P.length)
+    (level prev : Nat) (hl : level < 2) (hp : prev < 2) (ps : List (List Nat × Nat))
+    (hps : ∀ q ∈ ps, (∀ b ∈ q.1, b < 256) ∧ Gen.rx9600HdlcMin ≤ q.1.length + 2 ∧ q.1.length + 2 ≤ Gen.rx9600HdlcMax) :
+    ∃ garbage, (Hdlc.run ⟨Gen.rx9600HdlcMin, Gen.rx9600HdlcMax, true, false⟩ Hdlc.init
+      (Lfsr.lfsrRun Gen.rx9600DescramblerSeed
+        (nrziSpec prev (nrziEnc level (Lfsr.scrL hs (P ++ txFrames ps)))))).2 = garbage ++ ps.map (·.1) := by
+  obtain ⟨noise, _, hn, hrun⟩ := scrambled_link P (txFrames ps) hs hP (txFrames_bits ps) hhs hlen level prev hl hp
+  have hseed : Gen.rx9600DescramblerSeed = 0 := by decide
+  rw [hseed, hrun]
+  exact ⟨_, deframe_after_noise ⟨Gen.rx9600HdlcMin, Gen.rx9600HdlcMax, true, false⟩ rfl noise hn ps hps⟩
+
+/-- The descrambler of the chain is the documented one: `out[n] = in[n] xor in[n-12] xor in[n-17]`. -/
+theorem c20_descrambler_taps (l hist : List Nat) (hl : ∀ x ∈ l, x < 2) (hh : ∀ x ∈ hist, x < 2) :
+    Lfsr.lfsrRun (Lfsr.enc hist) l = Lfsr.descrL hist l ∧
+    Gen.rx9600DescramblerMask = 0x21 ∧ Gen.rx9600DescramblerLen = 16 :=
+  ⟨Lfsr.lfsrRun_eq_descrL l hl hist hh, by decide, by decide⟩
+
+/-- The `Descrambler` block's generated work loop clocks exactly that register model. -/
+theorem c20_descrambler_block (get : Nat → List Nat × List (List Tag)) (reg pos k : Nat) :
+    ∃ st ts, syncLoopG (descrambler Gen.rx9600DescramblerMask Gen.rx9600DescramblerSeed Gen.rx9600DescramblerLen)
+        get reg pos k =
+      some (st, (Lfsr.lfsrRun reg ((List.range k).map fun p => (get (pos + p)).1.getD 0 0)).map ([·]), ts) :=
+  descrambler_oneShot get 0 reg pos k
 
 /-- Digital back end of the 1200-baud chain on a concrete transmission: NRZI-coded frame with a
 two-flag preamble, any initial line level — exactly the payload comes out (non-vacuity; the statement
